@@ -1221,7 +1221,7 @@ pub fn run_c16(tier: &str, deadline: Instant, total: &mut Stats, log: &mut Vec<V
         total.merge(st);
     }
     // deeper histories on more functions: grow a DAG edge by edge, probe every call in every state
-    let probes: Vec<(usize, usize)> = if tier == "thorough" { vec![(5, 8), (6, 6), (6, 7)] } else { vec![(5, 6), (6, 5)] };
+    let probes: Vec<(usize, usize)> = if tier == "thorough" { vec![(5, 8), (6, 6), (6, 7)] } else { vec![(5, 7), (6, 6)] };
     for (n, depth) in probes {
         run_c16_probe(n, depth, deadline, total, log);
     }
